@@ -43,6 +43,9 @@ func main() {
 			os.Exit(2)
 		}
 		dumpSignatures(p)
+		if os.Getenv("VERIF_DUMP_VALUE_REJECTIONS") != "" {
+			dumpValueRejections(p)
+		}
 		return
 	}
 	if env := os.Getenv("VERIF_TIER"); env != "" && !flagSet("tier") {
